@@ -45,6 +45,8 @@ def main(argv=None):
     m = Machine(prog, Summaries(), model=model, seed=a.seed, step_budget=a.steps, path_budget=a.paths)
     m.known_classes = set(x for x in a.known.split(",") if x)
     m.deadline = t0 + a.budget_s
+    import os
+    m.trace = bool(os.environ.get("MIRSYM_TRACE"))
     if a.shard:
         for part in a.shard.split(";"):
             k, vs = part.split("=")
